@@ -627,6 +627,42 @@ def c17_10(ck, prog):
         r.ok(key, {'monotonic': bool(gs)})
 
 
+def c17_13(ck, prog):
+    """The prepared timeout error is queued whenever there is one."""
+    r = ck.rule('C17.13', 'the timeout error prepared for a pending call is queued whenever it still exists: '
+                '_dbus_pending_call_queue_timeout_error_unlocked hands pending->timeout_link to the connection on every '
+                'path on which that link is not NULL (no other condition stands in the way)', 'DOM',
+                breaks='a call whose timer fires after its timeout was already taken out of the main loop gets no error '
+                'queued: it stays in the reply table and completes zero times', floor=1)
+    fn = prog.fn('_dbus_pending_call_queue_timeout_error_unlocked', PEND)
+    q = {c['id'] for b, i, c in fn.calls('_dbus_connection_queue_synthesized_message_link')}
+    if not q:
+        raise AnalysisBroken('queue_timeout_error no longer queues the prepared link')
+
+    def akey(atom, resolve):
+        if atom[0] == 'truthy' and is_member(atom[1], 'timeout_link', 'DBusPendingCall'):
+            return ('has-link',)
+        if atom[0] == 'cmp' and atom[1] == '==' and is_member(atom[2], 'timeout_link', 'DBusPendingCall') and is_int(atom[3], 0):
+            return ('no-link',)
+        return None
+
+    def on_event(user, ev, ctx):
+        if ev['ev'] == 'call' and ev['e'].get('id') in q:
+            return True
+        return user
+
+    def on_exit(user, ctx, ret, ev):
+        has = ctx.atom(('has-link',)) is True or ctx.atom(('no-link',)) is False
+        if has and not user:
+            ctx.report('the function can return with pending->timeout_link still set and nothing queued', ev['line'] if ev else fn.line,
+                       key='link-kept')
+    ex = Explorer(fn, init=False, on_event=on_event, on_exit=on_exit, atom_key=akey, track=None).run()
+    if ex.reports:
+        r.from_reports(ex.reports, keyfn=lambda k, rep: 'queue_timeout_error:always-when-present')
+    else:
+        r.ok('queue_timeout_error:always-when-present')
+
+
 def run(ck):
     ck.explanation = (
         'Static rules over dbus-connection.c and dbus-pending-call.c: (WHO) completion goes through one funnel '
@@ -645,6 +681,7 @@ def run(ck):
         c17_7(ck, prog)
         c17_8(ck, prog)
         c17_10(ck, prog)
+        c17_13(ck, prog)
         r = ck.rule('C17.11', 'the reply table is keyed consistently: the int-key (and uintptr-key) front ends of the hash '
                     'table convert their key with the same written casts (lookup, insert, remove ... agree)', 'TAB',
                     breaks='pending calls are stored by serial: once the serial has its top bit set (2^31 messages, or '
